@@ -28,14 +28,77 @@ impl DocEntry {
         DocEntry::from_doc(Doc::from_root(root))
     }
     pub fn from_xml(xml: &str) -> Result<DocEntry, String> {
-        Ok(DocEntry {
-            xml: xml.to_string(),
-            doc: read_doc(xml)?,
-        })
+        match read_doc(xml) {
+            Ok(doc) => Ok(DocEntry { xml: xml.to_string(), doc }),
+            // a document that ends inside open elements (the library accepts it): its structure is
+            // that of the document with the missing end tags supplied
+            Err(e) => match missing_end_tags(xml) {
+                Some(tail) if !tail.is_empty() => Ok(DocEntry {
+                    xml: xml.to_string(),
+                    doc: read_doc(&format!("{}{}", xml, tail)).map_err(|_| e)?,
+                }),
+                _ => Err(e),
+            },
+        }
     }
     pub fn root(&self) -> Option<&Node> {
         self.doc.root.as_ref()
     }
+}
+
+/// the end tags that would close the elements still open at the end of `xml` (None if the text does
+/// not end between two pieces of markup or character data)
+pub fn missing_end_tags(xml: &str) -> Option<String> {
+    let b = xml.as_bytes();
+    let mut stack: Vec<&str> = Vec::new();
+    let mut i = 0;
+    while i < b.len() {
+        if b[i] != b'<' {
+            i += 1;
+            continue;
+        }
+        let rest = &xml[i..];
+        if rest.starts_with("<!--") {
+            i += rest.find("-->")? + 3;
+        } else if rest.starts_with("<![CDATA[") {
+            i += rest.find("]]>")? + 3;
+        } else if rest.starts_with("<?") {
+            i += rest.find("?>")? + 2;
+        } else if rest.starts_with("<!") {
+            // DOCTYPE, possibly with an internal subset
+            let close = match rest.find('[') {
+                Some(br) if br < rest.find('>')? => rest.find("]>")? + 2,
+                _ => rest.find('>')? + 1,
+            };
+            i += close;
+        } else if rest.starts_with("</") {
+            let end = rest.find('>')?;
+            stack.pop()?;
+            i += end + 1;
+        } else {
+            // start tag: the end is the first '>' outside quotes
+            let mut quote: Option<u8> = None;
+            let mut j = 1;
+            let rb = rest.as_bytes();
+            loop {
+                let c = *rb.get(j)?;
+                match quote {
+                    Some(q) if c == q => quote = None,
+                    Some(_) => {}
+                    None if c == b'"' || c == b'\'' => quote = Some(c),
+                    None if c == b'>' => break,
+                    None => {}
+                }
+                j += 1;
+            }
+            let name_end = rest[1..].find(|c: char| c.is_whitespace() || c == '/' || c == '>').map(|k| k + 1)?;
+            if rb[j - 1] != b'/' {
+                stack.push(&rest[1..name_end]);
+            }
+            i += j + 1;
+        }
+    }
+    Some(stack.iter().rev().map(|n| format!("</{}>", n)).collect())
 }
 
 /// self-check of a generated document: the mini reader must reproduce the generator's tree
@@ -628,5 +691,20 @@ pub fn record_bfs(ctx: &Ctx, label: &str, stats: &BfsStats, alphabet: usize, dep
     );
     if stats.capped.is_some() {
         ctx.set("exhaustive", json!(false));
+    }
+}
+
+#[cfg(test)]
+mod truncated_tests {
+    use super::*;
+
+    #[test]
+    fn documents_cut_off_inside_open_elements_are_readable() {
+        assert_eq!(missing_end_tags("<r><a x=\"1>\"><b/>t").as_deref(), Some("</a></r>"));
+        assert_eq!(missing_end_tags("<r><a></a></r>").as_deref(), Some(""));
+        let d = DocEntry::from_xml("<r><a><b/>").unwrap();
+        let full = DocEntry::from_xml("<r><a><b/></a></r>").unwrap();
+        assert_eq!(d.doc, full.doc);
+        assert!(DocEntry::from_xml("<r><a></b>").is_err());
     }
 }
